@@ -58,12 +58,6 @@ theorem access_never_panics (m : Method) (path : Bytes) (body : Body) (root : Js
 /-- the parts `unsyncedConfigAccess` walks for a request path -/
 abbrev partsOf (path : Bytes) : List Bytes := (pathParts path).1
 
-/-- the request does not end on an element of an array that sits directly in an array — the
-    one kind of path the traversal silently does nothing for (see `get_is_lookup_full_fails`,
-    `write_effect_full_fails`) -/
-def effective (path : Bytes) (root : Json) : Prop :=
-  partsOf path ≠ [] ∧ nestedEnd (partsOf path) root false = false
-
 theorem access_ok_trav {m : Method} {path : Bytes} {body : Body} {root : Json} {o : Option Json}
     (h : (access m path body root).2 = .ok o) :
     access m path body root = trav m (pathParts path).2 (bodyVal body) (partsOf path) root := by
@@ -74,7 +68,7 @@ theorem access_ok_trav {m : Method} {path : Bytes} {body : Body} {root : Json} {
     · simp [hb, ht] at h
     · simp [hb, ht]
 
-theorem guard_of_obj {parts : List Bytes} {kvs : Obj} : Guard parts (.obj kvs) false := by
+theorem guard_of_obj {parts : List Bytes} {kvs : Obj} : Guard parts (.obj kvs) := by
   intro xs h; cases h
 
 /-- **GET returns the value at the path** (soundness): whatever GET writes is the value the
@@ -87,12 +81,14 @@ theorem get_is_lookup (path : Bytes) (body : Body) (root v : Json)
   obtain ⟨v', hv', hs⟩ := step_get_sound (trav_step_out _ _ _ _ _ _ h)
   simp at hv'; subst hv'; exact hs
 
-/-- **… and every value is returned** (completeness) — everywhere except on an element of an
-    array directly inside an array (full statement: `get_is_lookup_full_fails`). -/
-theorem get_is_lookup_partial (path : Bytes) (kvs : Obj) (v : Json) (hpath : trimSlash path ≠ [])
-    (hv : sget (partsOf path) (.obj kvs) = some v) (heff : effective path (.obj kvs)) :
+/-- **… and every value is returned** (completeness): whatever value the path names in the
+    tree — object member, array element, element of an array that is itself an element of an
+    array (which the code before /repo's fix could not reach, `get_is_lookup_old_code_fails`)
+    — GET writes exactly it and leaves the tree alone. -/
+theorem get_returns_every_value (path : Bytes) (kvs : Obj) (v : Json) (hpath : trimSlash path ≠ [])
+    (hne : partsOf path ≠ []) (hv : sget (partsOf path) (.obj kvs) = some v) :
     access .get path .empty (.obj kvs) = (.obj kvs, .ok (some v)) := by
-  have h2 := trav_get_complete (pathParts path).2 .null (partsOf path) (.obj kvs) false v heff.1 hv heff.2 guard_of_obj
+  have h2 := trav_get_complete (pathParts path).2 .null (partsOf path) (.obj kvs) v hne hv guard_of_obj
   have h1 := access_get_pure path .empty (.obj kvs)
   have h3 : access .get path .empty (.obj kvs) = trav .get (pathParts path).2 .null (partsOf path) (.obj kvs) := by
     unfold access; simp [hpath, bodyVal]
@@ -100,40 +96,41 @@ theorem get_is_lookup_partial (path : Bytes) (kvs : Obj) (v : Json) (hpath : tri
   exact Prod.ext h1 h2
 
 /-- **PUT**: afterwards the path names the body (a new object member, or the element
-    inserted at that index; intermediate objects are created on the way). -/
-theorem write_effect_put_partial (path : Bytes) (body : Body) (kvs : Obj) (o : Option Json)
-    (h : (access .put path body (.obj kvs)).2 = .ok o) (heff : effective path (.obj kvs)) :
+    inserted at that index; intermediate objects are created on the way). `partsOf path ≠ []`
+    only excludes the degenerate path "/...", which no handler passes on. -/
+theorem write_effect_put (path : Bytes) (body : Body) (kvs : Obj) (o : Option Json)
+    (h : (access .put path body (.obj kvs)).2 = .ok o) (hne : partsOf path ≠ []) :
     sget (partsOf path) (access .put path body (.obj kvs)).1 = some (bodyVal body) := by
   have ht := access_ok_trav h
   rw [ht] at h ⊢
-  exact step_put_effect (trav_step _ _ _ _ _ false o heff.1 h heff.2 guard_of_obj)
+  exact step_put_effect (trav_step _ _ _ _ _ o hne h guard_of_obj)
 
 /-- **PATCH**: afterwards the path names the body. -/
-theorem write_effect_patch_partial (path : Bytes) (body : Body) (kvs : Obj) (o : Option Json)
-    (h : (access .patch path body (.obj kvs)).2 = .ok o) (heff : effective path (.obj kvs)) :
+theorem write_effect_patch (path : Bytes) (body : Body) (kvs : Obj) (o : Option Json)
+    (h : (access .patch path body (.obj kvs)).2 = .ok o) (hne : partsOf path ≠ []) :
     sget (partsOf path) (access .patch path body (.obj kvs)).1 = some (bodyVal body) := by
   have ht := access_ok_trav h
   rw [ht] at h ⊢
-  exact step_patch_effect (trav_step _ _ _ _ _ false o heff.1 h heff.2 guard_of_obj)
+  exact step_patch_effect (trav_step _ _ _ _ _ o hne h guard_of_obj)
 
 /-- **POST**: the addressed array has the body (or, with `...`, the body's elements)
     appended — the array being named by the path or by the path minus a trailing index,
     which POST ignores — or, where there is no array, the path names the body. -/
-theorem write_effect_post_partial (path : Bytes) (body : Body) (kvs : Obj) (o : Option Json)
-    (h : (access .post path body (.obj kvs)).2 = .ok o) (heff : effective path (.obj kvs)) :
+theorem write_effect_post (path : Bytes) (body : Body) (kvs : Obj) (o : Option Json)
+    (h : (access .post path body (.obj kvs)).2 = .ok o) (hne : partsOf path ≠ []) :
     PostEffect (pathParts path).2 (bodyVal body) (partsOf path) (.obj kvs) (access .post path body (.obj kvs)).1 := by
   have ht := access_ok_trav h
   rw [ht] at h ⊢
-  exact step_post_effect (trav_step _ _ _ _ _ false o heff.1 h heff.2 guard_of_obj)
+  exact step_post_effect (trav_step _ _ _ _ _ o hne h guard_of_obj)
 
 /-- **DELETE**: the array is one element shorter (that element), or the object no longer
     has the key. -/
-theorem write_effect_delete_partial (path : Bytes) (body : Body) (kvs : Obj) (o : Option Json)
-    (h : (access .delete path body (.obj kvs)).2 = .ok o) (heff : effective path (.obj kvs)) :
+theorem write_effect_delete (path : Bytes) (body : Body) (kvs : Obj) (o : Option Json)
+    (h : (access .delete path body (.obj kvs)).2 = .ok o) (hne : partsOf path ≠ []) :
     DeleteEffect (partsOf path) (.obj kvs) (access .delete path body (.obj kvs)).1 := by
   have ht := access_ok_trav h
   rw [ht] at h ⊢
-  exact step_delete_effect (trav_step _ _ _ _ _ false o heff.1 h heff.2 guard_of_obj)
+  exact step_delete_effect (trav_step _ _ _ _ _ o hne h guard_of_obj)
 
 /-- **… and nowhere else.** For every method, body and outcome: a path `q` that parts ways
     with the path of the container the request ends in (a different key, or a different
@@ -242,7 +239,7 @@ theorem rejected_changes_nothing {env : Env} {s : State} (h : Reachable env s) (
     be expressed by a URL and reached by the traversal.  Every field but the two
     representation invariants excludes a proved counter-example or an inherent limit:
     `segsOk` (a key that is "", "." or contains '/': `id_resolves_full_fails`), `notDots` (a trailing
-    "..." is the append marker), `notNested` (array directly in an array), `idOk` (the id has
+    "..." is the append marker), `idOk` (the id has
     to fit one URL path segment), `unambiguous` (two objects with the same id: Go's map order
     decides). -/
 structure Addressable (j : Json) (segs : List Bytes) (t : Bytes) : Prop where
@@ -250,7 +247,6 @@ structure Addressable (j : Json) (segs : List Bytes) (t : Bytes) : Prop where
   short : shortArrays j = true
   segsOk : okSegs segs
   notDots : segs.getLast? ≠ some dots
-  notNested : nestedEnd (cfgKey :: segs) (.obj [(cfgKey, j)]) false = false
   idOk : okSeg t
   unambiguous : (taggedJ j).filter (fun e => e.2 = t) = [(segs, t)]
 
@@ -310,14 +306,11 @@ theorem id_resolves_partial {env : Env} {s : State} (h : Reachable env s) (hkey 
     have hrcfg : route cfgPrefix = .config := by decide
     have hget : access .get cfgPrefix .empty (.obj [(cfgKey, j)]) = (.obj [(cfgKey, j)], .ok (some (.obj kvs))) := by
       have hp : pathParts cfgPrefix = ([cfgKey], false) := by decide
-      apply get_is_lookup_partial _ _ _ (by decide)
+      apply get_returns_every_value _ _ _ (by decide)
+      · show (pathParts cfgPrefix).1 ≠ []
+        rw [hp]; simp
       · show sget (pathParts cfgPrefix).1 _ = _
         rw [hp]; simp [sget_obj_cons, lookup, sget, hj']
-      · refine ⟨?_, ?_⟩
-        · show (pathParts cfgPrefix).1 ≠ []
-          rw [hp]; simp
-        · show nestedEnd (pathParts cfgPrefix).1 _ false = false
-          rw [hp, nestedEnd_obj_cons]; simp [lookup, nestedEnd]
     rw [rootSlash_root] at hto
     unfold serve
     simp only [readReq, hrid, hto, hrcfg, idPath, if_true]
@@ -328,23 +321,17 @@ theorem id_resolves_partial {env : Env} {s : State} (h : Reachable env s) (hkey 
       have := ha.notDots
       rw [hsegs] at this
       simpa [List.getLast?_cons_cons] using this
-    have hnn : nestedEnd (cfgKey :: s0 :: rest) (.obj [(cfgKey, j)]) false = false := by
-      have := ha.notNested
-      rw [hsegs] at this; exact this
     have hrcfg : route (renderPath (cfgKey :: s0 :: rest)) = .config := route_render_config hokc
     have hparts : pathParts (renderPath (cfgKey :: s0 :: rest)) = (cfgKey :: s0 :: rest, false) :=
       pathParts_render hokc (by simp) hnd
     have hget : access .get (renderPath (cfgKey :: s0 :: rest)) .empty (.obj [(cfgKey, j)]) =
         (.obj [(cfgKey, j)], .ok (some (.obj kvs))) := by
-      apply get_is_lookup_partial _ _ _ (trimSlash_render_ne hokc (by simp))
+      apply get_returns_every_value _ _ _ (trimSlash_render_ne hokc (by simp))
+      · show (pathParts (renderPath (cfgKey :: s0 :: rest))).1 ≠ []
+        rw [hparts]; simp
       · show sget (pathParts (renderPath (cfgKey :: s0 :: rest))).1 _ = _
         rw [hparts]; simp only
         rw [sget_obj_cons]; simp [lookup]; exact hs1
-      · refine ⟨?_, ?_⟩
-        · show (pathParts (renderPath (cfgKey :: s0 :: rest))).1 ≠ []
-          rw [hparts]; simp
-        · show nestedEnd (pathParts (renderPath (cfgKey :: s0 :: rest))).1 _ false = false
-          rw [hparts]; exact hnn
     rw [rootSlash_below] at hto
     unfold serve
     simp only [readReq, hrid, hto, hrcfg, idPath]
@@ -421,10 +408,10 @@ example : (serve exEnv (exReq .patch pId (.val (.bool true))) exLoaded).2 = .fai
 example : stripIds exDoc ≠ exDoc := by decide
 example : (commit exEnv true initState (.obj [(cfgKey, exDoc)])).2 = .ok := by decide
 
--- get_is_lookup / get_is_lookup_partial / write effects: an effective path into the loaded document
+-- get_is_lookup / get_returns_every_value / write effects: a path into the loaded document
 def pA0 : Bytes := [47, 99, 111, 110, 102, 105, 103, 47, 97, 112, 112, 115, 47, 99, 49, 50, 47, 97, 47, 48]   -- "/config/apps/c12/a/0"
 def pA : Bytes := [47, 99, 111, 110, 102, 105, 103, 47, 97, 112, 112, 115, 47, 99, 49, 50, 47, 97]     -- "/config/apps/c12/a"
-example : effective pA0 exLoaded.rawCfg := ⟨by decide, by decide⟩
+example : partsOf pA0 ≠ [] := by decide
 example : sget (partsOf pA0) exLoaded.rawCfg = some (.num [49]) := by decide
 example : (access .get pA0 .empty exLoaded.rawCfg).2 = .ok (some (.num [49])) := by decide
 example : (access .put pA0 (.val .null) exLoaded.rawCfg).2 = .ok none := by decide
@@ -491,7 +478,6 @@ example : Addressable exDoc [kApps, kC12] kX where
   short := by decide
   segsOk := by unfold okSegs okSeg; decide
   notDots := by decide
-  notNested := by decide
   idOk := by unfold okSeg; decide
   unambiguous := by decide
 -- … and GET /id/x returns it
